@@ -4,8 +4,9 @@ from .facts import Facts, dump_body
 from .engine import Fn, fmt_terms, short
 
 def newest():
-    ds = glob.glob('/verif/.cache/facts/*')
-    return max(ds, key=os.path.getmtime)
+    # facts of the tree named by OXA_REPO (default /repo), extracted if necessary
+    from . import extract
+    return extract.extract(log=lambda m: None)[0]
 
 if __name__ == '__main__':
     crate, sub = sys.argv[1], sys.argv[2]
